@@ -609,6 +609,35 @@ fn sibling_stream(out: &mut Out, rng: &mut SplitMix64)
     }
 }
 
+/// FIXED part of the stream: a rotation with a non-finite parameter (NaN, +inf, -inf), then a single-qubit read-out.
+/// The state vector is all NaN afterwards; `w0.min(1.0)` turns the NaN weight into 1.0, so the pinned code returns Ok.
+fn nonfinite_stream(out: &mut Out, rng: &mut SplitMix64)
+{
+    let vals = [f64::NAN, f64::INFINITY, f64::NEG_INFINITY];
+    let one = fbits(1.0);
+    for v in vals.iter()
+    {
+        let a = fbits(*v);
+        let gates: Vec<(usize, String)> = vec![
+            (1, format!("rx {} 0", a)), (1, format!("ry {} 0", a)), (1, format!("rz {} 0", a)), (1, format!("u1 {} 0", a)),
+            (1, format!("u2 {} {} 0", a, one)), (1, format!("u2 {} {} 0", one, a)),
+            (1, format!("u3 {} {} {} 0", a, one, one)), (1, format!("u3 {} {} {} 0", one, one, a)),
+            (2, format!("x 1 ; add_gate 2 1 0 CRX {}", a)), (2, format!("h 1 ; add_gate 2 1 0 CRY {}", a)),
+            (1, format!("add_gate 1 0 RX {}", a)), (1, format!("h 0 ; add_conditional_gate 0 0 1 0 RY {}", a))];
+        for (nq, g) in gates.iter()
+        {
+            for ro in ["measure 0 0", "peek 0 1", "reset 0", "measure_x 0 0", "measure_basis 0 1 Y", "peek_basis 0 0 X",
+                       "measure_all_ROW", "peek_all_ROW"].iter()
+            {
+                let ro = if ro.ends_with("_ROW")
+                    { format!("{} {}", ro.trim_end_matches("_ROW"), list_text(&(0..*nq).collect::<Vec<usize>>())) } else { ro.to_string() };
+                let calls: Vec<String> = g.split(" ; ").map(|t| t.to_string()).chain(std::iter::once(ro)).chain(std::iter::once("measure 0 1".to_string())).collect();
+                run_sequence(out, rng, *nq, 2, &calls, 2);
+            }
+        }
+    }
+}
+
 fn main()
 {
     let dir = std::env::args().nth(1).expect("usage: c18 <outdir>");
@@ -628,6 +657,7 @@ fn main()
     }
     macro_stream(&mut out);
     sibling_stream(&mut out, &mut rng);
+    nonfinite_stream(&mut out, &mut rng);
 
     let nseq = if thorough() { 2500 } else { 420 };
     for iseq in 0..nseq
